@@ -326,8 +326,22 @@ static int corpus_adversarial(corpus_iter *it, uint64_t k) {
         }
         snprintf(it->desc, sizeof it->desc, "n=100 over 14 distinct (ratio 0.14)");
         break;
-    default:
-        return 0;
+    default: {
+        /* sampler-misleading family: every stride-th element repeats, the others are distinct and need 9 tagged
+         * bytes; lengths around every threshold of the uniqueness estimate / selection (4096, 10000) */
+        static const size_t LN[] = {2288, 4097, 5000, 8192, 9999, 10000, 10001, 12000};
+        static const size_t ST[] = {2, 5, 10, 16};
+        uint64_t j = k - 26;
+        if (j >= (sizeof LN / sizeof *LN) * (sizeof ST / sizeof *ST)) {
+            return 0;
+        }
+        size_t len = LN[j / 4], stride = ST[j % 4];
+        for (n = 0; n < len; n++) {
+            v[n] = (n % stride == 0) ? 42 : (0x0100000000000000ULL + n * 3);
+        }
+        snprintf(it->desc, sizeof it->desc, "n=%zu every %zu-th element equal, others distinct 9-byte values (misleads a strided sample)", len, stride);
+        break;
+    }
     }
     it->n = n;
     return 1;
